@@ -1,7 +1,7 @@
 import Cello.Fail
 /-
   C12: explicit OLD variants of model functions — the code as it was before the `fix:` commits 81e7452 (Range_Get),
-  e60e6ec (String_Rem) and bc940bb (Table_Get).  They are not part of the model (the driver never runs them); they exist so that the
+  e60e6ec (String_Rem), bc940bb (Table_Get) and 744a45f (String_Assign with the target as operand).  They are not part of the model (the driver never runs them); they exist so that the
   `…_refuted` theorems of Props/C12.lean keep stating, on the original witnesses, what the repaired defects were, next
   to what the current model does on the same inputs.
 -/
@@ -59,5 +59,12 @@ def Tab.getSlotOld (t : Tab) (a : SlotArg) : Tab × Res :=
     match t.items.lookup k with
     | some v => (t, .ok (.val v))
     | none => (t, .ub)
+
+/-- `assign(s, s)` before fix 744a45f: `c_str(obj)`; the allocation check (a stack / static String raised ValueError — a call
+    that asks for no change failed); on the heap `s->val = realloc(s->val, strlen(val) + 1); strcpy(s->val, val);` with `val` the
+    pointer into the block just handed to `realloc` — a read through a pointer whose block may have been freed / moved, and an
+    overlapping `strcpy`: undefined behaviour -/
+def Str.assignSelfOld (s : Str) : Str × Res :=
+  if s.alloc.nonHeap then (s, .raised .ValueError) else (s, .ub)
 
 end Cello.Fail
